@@ -184,6 +184,38 @@ async fn run_reclose(mode: &str, fallible: bool, n: u32) -> Vec<String> {
     r
 }
 
+/// C12 (Uni latch), stress on the multi-thread runtime: a Uni with 4 consumer streams whose pipelines end by themselves at the
+/// same instant (a spin barrier), so that all four executors reach the latch together; the user's close callback must run
+/// exactly once.  Returns the number of callback invocations.
+async fn run_latch(trial: u64) -> u32 {
+    use std::task::Poll;
+    const MS: usize = 4;
+    let calls = Arc::new(AtomicU32::new(0));
+    let arrivals = Arc::new(std::sync::atomic::AtomicUsize::new(0));
+    let parked = Arc::new(Mutex::new(Vec::new()));
+    let uni = {
+        let (calls, arrivals, parked) = (calls.clone(), arrivals.clone(), parked.clone());
+        UniMoveAtomic::<u32, 64, MS, NONE>::new(format!("latch {trial}")).spawn_non_futures_non_fallibles_executors(1,
+            move |in_stream| {
+                parked.lock().unwrap().push(in_stream);      // the Uni's own streams are kept aside: nothing is closed here
+                let arrivals = arrivals.clone();
+                let mut arrived = false;
+                futures::stream::poll_fn(move |_cx| {
+                    if !arrived { arrived = true; arrivals.fetch_add(1, SeqCst); }
+                    let start = std::time::Instant::now();
+                    while arrivals.load(SeqCst) < MS && start.elapsed() < Duration::from_secs(2) { std::hint::spin_loop(); }
+                    Poll::Ready(None::<u32>)
+                })
+            },
+            move |_e| async move { calls.fetch_add(1, SeqCst); })
+    };
+    let start = std::time::Instant::now();
+    while (calls.load(SeqCst) == 0 || uni.finished_executors_count.load(SeqCst) < MS as u32) && start.elapsed() < Duration::from_millis(300) { tokio::time::sleep(Duration::from_millis(1)).await; }
+    tokio::time::sleep(Duration::from_millis(1)).await;
+    parked.lock().unwrap().clear();
+    calls.load(SeqCst)
+}
+
 /// C12 (third sentence) + C06 for a Multi: the log channel's oldies executor hands over to the newies executor
 async fn run_transition(seed: u64, sequential: bool, limit: u32, n_old: u32, n_new: u32, slow_old: bool) -> Vec<String> {
     let name = format!("vh-transition-{}-{}", std::process::id(), seed);
@@ -400,6 +432,25 @@ fn main() {
         rep.print();
         return
     }
+    if sub == "latch" {
+        let rt = tokio::runtime::Builder::new_multi_thread().worker_threads(8).enable_all().build().unwrap();
+        for i in 0..runs {
+            let seed = if a.kv.contains_key("seedx") { a.num("seedx", 0) } else { seed0.wrapping_mul(1_000_003).wrapping_add(i) };
+            mark_run(seed);
+            let calls = rt.block_on(run_latch(seed));
+            let trace = vec![format!("latch trial {seed}: 4 executors finished together, user close callback ran {calls} time(s)")];
+            rep.add_run(&[format!("latch calls={calls}")], true, "latch/ms4", "Completed");
+            if calls != 1 && rep.violations.len() < 3 {
+                let d = format!("Uni with 4 consumer streams whose executors finish at the same instant (multi-thread runtime): the Uni's close callback ran {calls} times instead of exactly once");
+                let header = vec![format!("cmd exec sub=latch runs=200 seedx={seed}   # stress test: repeat the trial"), format!("violation close_callback_count: {d}")];
+                let p = write_replay(&replay_dir, &format!("{pid}-exec-latch-seed{seed}-close_callback_count"), &header, &trace);
+                rep.violations.push(Violation { run: i, seed, kind: "close_callback_count".into(), detail: d, replay: p });
+            }
+        }
+        drop(rt);
+        rep.print();
+        return
+    }
     if sub == "transition" {
         for i in 0..runs {
             let seed = if a.kv.contains_key("seedx") { a.num("seedx", 0) } else { seed0.wrapping_mul(1_000_003).wrapping_add(i) };
@@ -451,7 +502,10 @@ fn main() {
         let rt = runtime(multi);
         let log_events = sub == "close";
         // `account`: Unis with 1, 2 or 4 consumer streams (each stream has its own executor, the limit applies to each)
-        let ms = if sub == "account" { [1usize, 1, 2, 4][rng.below(4) as usize] } else { 1 };
+        // (on the multi-thread runtime only MAX_STREAMS = 1: with several consumer streams ending on different worker threads
+        //  `close()` runs into known finding D11 -- cancel_all_streams() racing the removal of the streams it has just ended --,
+        //  which is exhibited deterministically by `multi sub=cancelall`, not by real-time races here)
+        let ms = if sub == "account" && !multi { [1usize, 1, 2, 4][rng.below(4) as usize] } else { let _ = rng.below(4); 1 };
         let o = rt.block_on(async {
             match (instr, ms) {
                 (0, 1) => run_uni::<METRICS, 1>(variant, timeout, limit, &items, usize::MAX, log_events).await,
